@@ -202,6 +202,15 @@ SLICES = [
         "drops": "the collect() of the per-move texts (Move::pgn_notation, C20's own contract), String::new(), the loop header",
     },
     {
+        "name": "verif_fen_board_loop",
+        "file": "chess/mod.rs",
+        "within": r"^\s*pub fn fen\(&self\) -> String",
+        "header": "impl Game { pub(crate) fn verif_fen_board_loop(&self, result: &mut String)",
+        "regions": [{"start": r"^\s*for row in \(0\.\.8\)\.rev\(\) \{", "end": ("block",)}],
+        "post": "}",
+        "drops": "`let mut result = String::new()` and the field writer after the loop",
+    },
+    {
         "name": "verif_fen_rank",
         "file": "chess/mod.rs",
         "within": r"^\s*pub fn fen\(&self\) -> String",
